@@ -32,6 +32,34 @@ func genReceiver() {
 		problem("pkg/packet/receiver.go: expected exactly one time.Sleep with a constant duration in the receive loop (found %d waits)", len(sleeps))
 		ns = 0
 	}
+	// fingerprint of the receive loop: it leaves in exactly four places (ctx at the loop head, a broken socket,
+	// ctx while reporting a read error, ctx while reporting a processing error) and comes round early in exactly two
+	// (a temporary error; after the pause that follows an unknown error) — every frame read without an error is
+	// handed to the processor, whatever its capture info says, and no count of failures ends the loop
+	rets, conts, brks, procs := 0, 0, 0, 0
+	if fd := findFunc(f, "receiver", "ReceivePackets"); fd != nil {
+		ast.Inspect(fd.Body, func(n ast.Node) bool {
+			switch x := n.(type) {
+			case *ast.ReturnStmt:
+				rets++
+			case *ast.BranchStmt:
+				if x.Tok == token.CONTINUE {
+					conts++
+				} else {
+					brks++
+				}
+			case *ast.CallExpr:
+				if sel, ok := x.Fun.(*ast.SelectorExpr); ok && sel.Sel.Name == "ProcessPacketData" {
+					procs++
+				}
+			}
+			return true
+		})
+	}
+	// the function itself ends with `return errc`
+	if rets != 5 || conts != 2 || brks != 0 || procs != 1 {
+		problem("pkg/packet/receiver.go: receive loop has %d returns, %d continues, %d breaks/gotos, %d ProcessPacketData calls (expected 5, 2, 0, 1)", rets, conts, brks, procs)
+	}
 	var sb strings.Builder
 	sb.WriteString("namespace SxVerif.Generated\n\n")
 	sb.WriteString("/-- the pause of `ReceivePackets` after an unknown read error, in ns (a constant in the source) -/\n")
